@@ -1038,6 +1038,19 @@ func (s *shard) prepareSnapshot() {
 	s.snapshotWg.Add(1)
 }
 
+// prepareForcedSnapshot registers a forced snapshot with the wait group Close waits for. Close drops the active table
+// under snapshotLock before it waits, so registering under that lock orders the Add with that Wait: it either happens
+// before (and Close waits for this snapshot) or finds no active table - there is nothing to flush then.
+func (s *shard) prepareForcedSnapshot() bool {
+	s.snapshotLock.RLock()
+	defer s.snapshotLock.RUnlock()
+	if s.activeTbl == nil {
+		return false
+	}
+	s.prepareSnapshot()
+	return true
+}
+
 func (s *shard) endSnapshot() {
 	s.snapshotWg.Done()
 }
